@@ -350,6 +350,12 @@ func c15Run(c *c15Case, env *fw.Env, v *fw.V) {
 			sc := step.Case{G: g, Vars: c.Vars, Order: c.Order, Lenient: hasOr(g)}
 			r1 = step.RunStepwise("C15", &sc, env, v1)
 		})
+		if (v1.Violated() || r1.Aborted) && familyOf(c.AST) == "with-inclusive" {
+			// the engine's recorded divergence for nested inclusive gateways (C01's known finding) ends the
+			// run early; the model-level round trip above was still decided, only the behavioural comparison is skipped
+			v.Add("engine-comparison-skipped:with-inclusive", 1)
+			return
+		}
 		if v1.Violated() || r1.Aborted {
 			v.Inconclusive("baseline", "original model diverges from the reference itself (C01's business): %v", v1.Findings)
 			return
